@@ -95,7 +95,7 @@ def layer_files(ctx, iter_xml):
 # ---------------------------------------------------------------------------
 # markup grammar for the identity layer
 NAMES = ['p', 'div', 'B', 'x-y', 'é', 'a1', 'br', 'li', 'input', '_u', 'a.b', 'Td', 'ns:el']
-ANAMES = ['a', 'Class', 'data-x', 'é', 'on_click', 'a.b', '@click', 'xml:lang', 'b', 'c', 'D', 'data-a-b', 'n', 'r', 't',
+ANAMES = ['a', '\u0663x', 'Class', 'data-x', 'é', 'on_click', 'a.b', '@click', 'xml:lang', 'b', 'c', 'D', 'data-a-b', 'n', 'r', 't',
           'nt', 'rn', 'tr', 'href']
 WS = [' ', '  ', '\n', '\t', ' \n ', '\r\n', '\r']
 
@@ -331,6 +331,34 @@ def layer_identity(ctx, n):
                           {'kind': 'identity', 'src': d})
 
 
+SOUP = ['<a', '<b', ' ', ' ', '>', '>', '/>', '</a', '</b', 'x="1"', "y='2'", 'z=3', 'w', '=', '"', "'", 't', '\n',
+        '&amp;', '<!--', '-->', '<![CDATA[', ']]>', '<?p', '?>', '<!D', '\u0663x', '\u0e51', '/', '<', '</', '</a>',
+        '<a>', '<b>', '</b>', '\t', '\xe9', '\xb2']
+
+
+def layer_soup(ctx, n):
+    """Tag soup proper: random concatenations of markup fragments (unterminated start and end tags,
+    stray quotes, names starting with a non-ASCII digit, ...).  Whatever of it compiles must render
+    to itself; what is rejected must be rejected with a TemplateError (judged by C11, counted here)."""
+    rng = ctx.rng
+    for _ in range(n):
+        s = ''.join(rng.choice(SOUP) for _ in range(rng.randint(1, 7)))
+        if active(s):
+            continue
+        ctx.cover('layer', 'soup')
+        try:
+            check_identity(ctx, s, ('soup',))
+        except Exception as e:
+            if slash_in_unquoted_value_explains(s):
+                ctx.violation('identity-diff-in-document-with-slash-in-unquoted-attribute-value',
+                              'statement-free document %r raised %s' % (s[:200], type(e).__name__), {'kind': 'identity', 'src': s})
+                continue
+            ctx.violation('identity-crash-' + type(e).__name__,
+                          'compiling/rendering a statement-free document raised %s: %s' % (
+                              type(e).__name__, str(e)[:200]),
+                          {'kind': 'identity', 'src': s})
+
+
 def layer_identity_files(ctx):
     """Statement-free sample files must render to themselves, too."""
     files = sorted(glob.glob(os.path.join(env.SRC, 'chameleon', 'tests', 'inputs', '*.pt')))
@@ -356,11 +384,13 @@ def run(ctx):
         layer_exhaustive(ctx, iter_xml, ALPHA10, 6, '10x6')
         layer_random(ctx, iter_xml, 2000)
         layer_identity(ctx, 700)
+        layer_soup(ctx, 1500)
     else:
         layer_exhaustive(ctx, iter_xml, ALPHA16, 6, '16x6')
         layer_exhaustive(ctx, iter_xml, ALPHA10, 7, '10x7')
         layer_random(ctx, iter_xml, 20000)
         layer_identity(ctx, 12000)
+        layer_soup(ctx, 25000)
     layer_files(ctx, iter_xml)
     layer_identity_files(ctx)
 
